@@ -166,6 +166,12 @@ def r2(ctx):
             ctx.ob(f"{JAR}.add:{s!r}", ok, f"jar keys {ks}", loc)
 
 
+@rule("R-C20-4", min_instances=30, title="the Cookie line of the request: jar cookies for the host, then the caller's cookie, joined by '; ' (never dropped, never reordered)")
+def r4(ctx):
+    from .c10 import cookie_classes, r1 as request_lines
+    request_lines(ctx, classes=list(cookie_classes()))
+
+
 @rule("R-C20-5", min_instances=3, title="the jar is fed only by handshake responses; repeated Set-Cookie lines are merged with '; '; the jar is asked for the URL's host")
 def r5(ctx):
     idx = ctx.index
